@@ -103,6 +103,7 @@ def run_task(cls_name, ctype, cone, W, N, steps, batch, prop, tier, budget=None)
     ex.stop_after_candidates = 3
 
     def body(ctx):
+        refines = []
         eps = ctx.real("eps")
         ctx.assume(eps > 0)
         gp = FreshGP(ctx, m)
@@ -160,6 +161,13 @@ def run_task(cls_name, ctype, cone, W, N, steps, batch, prop, tier, budget=None)
                 o[()] = b
                 return o.view(SymArray)
             a.compute_beta = beta_stub
+            orig_refine = a.design_space.refine_design
+
+            def refine(idx):
+                ch = orig_refine(idx)
+                refines.append((idx, list(ch), idx in a.S, idx in a.P))
+                return ch
+            a.design_space.refine_design = refine
             orig_should = a.design_space.should_refine_design
 
             def should(model, idx, scale):
@@ -172,6 +180,7 @@ def run_task(cls_name, ctype, cone, W, N, steps, batch, prop, tier, budget=None)
                    (aq, {"np": px}), (cr, {"np": px}), (ds, {"np": px}), (em, {"np": px}), (uu, {"np": px})]
         history = [snapshot(a)]
         ever_left = set()
+        ever_active = set(a.S) | set(getattr(a, "P", set()) if isinstance(getattr(a, "P", None), set) else set())
         done = False
         extra = 0
         for step in range(steps + 2):
@@ -179,6 +188,7 @@ def run_task(cls_name, ctype, cone, W, N, steps, batch, prop, tier, budget=None)
             pre = snapshot(a)
             ncalls = len(prob.calls)
             nadd = len(gp.added)
+            nref = len(refines)
             if cls_name == "VOGP_AD":
                 T.idx = {id(r): i for i, r in enumerate(regs_now())}
             try:
@@ -199,6 +209,9 @@ def run_task(cls_name, ctype, cone, W, N, steps, batch, prop, tier, budget=None)
             if cls_name == "VOGP_AD":
                 T.idx = {id(r): i for i, r in enumerate(regs_now())}
             bad = check_step(cls_name, a, pre, post, ret, done, prob, ncalls, gp, nadd, ever_left, costs, ctx, prop)
+            if not bad and cls_name == "VOGP_AD":
+                bad = check_tree(a, refines, refines[nref:], pre, post, ever_active)
+                ever_active |= post["S"] | post["P"]
             if bad:
                 mdl = ctx.satisfiable()
                 if mdl is not None:
@@ -338,6 +351,53 @@ def check_step(cls_name, a, pre, post, ret, was_done, prob, ncalls, gp, nadd, ev
             stored = np.asarray(a.model.design_samples[i], dtype=object)
             if stored.shape[0] == 0 or not all(stored[-1][k] is y[r_][k] for k in range(stored.shape[1])):
                 return "exactly the returned observations, paired with the queried designs, reach the model"
+    return None
+
+
+def check_tree(a, refines, new_refs, pre, post, ever_active):
+    """C18 (run level): active nodes are leaves with pairwise interior-disjoint cells; active plus
+    discarded leaves tile the unit cube; a refined node is replaced by its children in the same set;
+    latch / maximum-depth invariants"""
+    from fractions import Fraction as Fr
+    ds_ = a.design_space
+    n = ds_.cardinality
+    if not (len(ds_.points) == len(ds_.cells) == len(ds_.point_depths) == len(ds_.confidence_regions) == n):
+        return "design-space arrays stay aligned"
+    refined = {p for p, _, _, _ in refines}
+    leaves = [i for i in range(n) if i not in refined]
+    active = post["S"] | post["P"]
+    if not active <= set(leaves):
+        return "active nodes are leaves"
+    d = ds_.domain_dim
+    cells = {i: [(Fr(float(lo)), Fr(float(hi))) for lo, hi in ds_.cells[i]] for i in leaves}
+    vol = sum((np.prod([hi - lo for lo, hi in c]) for c in cells.values()), Fr(0))
+    for i, j in itertools.combinations(leaves, 2):
+        if all(max(a_[0], b_[0]) < min(a_[1], b_[1]) for a_, b_ in zip(cells[i], cells[j])):
+            return "leaf cells are pairwise interior-disjoint"
+    if vol != 1 or any(lo < 0 or hi > 1 for c in cells.values() for lo, hi in c):
+        return "active plus discarded leaves tile the unit cube"
+    for p, ch, inS, inP in refines:
+        if len(ch) != 2 ** d or any(ds_.point_depths[c] != ds_.point_depths[p] + 1 for c in ch):
+            return "refinement creates 2^d children one level deeper"
+        if ds_.point_depths[p] >= ds_.max_depth:
+            return "never refined beyond the maximum depth"
+    for p, ch, inS, inP in new_refs:
+        if not (p in pre["S"] | pre["P"]) or p in active:
+            return "a refined node is replaced by its children in the same set"
+        if (inS and not set(ch) <= post["S"]) or (inP and not set(ch) <= post["P"]) or not (inS or inP):
+            return "a refined node is replaced by its children in the same set"
+        par = ds_.confidence_regions[p]
+        for c in ch:
+            rc = ds_.confidence_regions[c]
+            if rc.lower is not par.lower and not np.array_equal(np.asarray(rc.lower, dtype=object), np.asarray(par.lower, dtype=object)):
+                return "children start from the parent's confidence region"
+    maxd = a.max_discretization_depth
+    if any(ds_.point_depths[i] != maxd for i in post["P"]):
+        return "every design declared Pareto is at the maximum discretisation depth"
+    if post["P"] and not a.enable_epsilon_covering:
+        return "P non-empty only after the latch is set"
+    if any(ds_.point_depths[i] > maxd for i in range(n)):
+        return "depth never exceeds the maximum"
     return None
 
 
